@@ -41,3 +41,9 @@
 (declare-fun node_nchildren_of (Iface Int) Int)
 (declare-fun node_child_of (Iface Int Int) Iface)
 (declare-fun feat_valid (Iface Iface Iface) Bool)
+; pattern statements (C13/C16): the compiled regular expression of a pattern statement, the pattern rows of a string type
+(declare-fun node_argpattern (Iface) Int)
+(declare-fun str_pats (Iface) Slice)
+(declare-fun node_nchildren (Iface) Int)        ; Children(), by position
+(declare-fun node_childat (Iface Int) Iface)
+(declare-fun node_argdate (Iface) String)       ; ArgDate()
